@@ -63,14 +63,14 @@ Definition parse_ssp (s : list N) : option (list N * list N) :=
   end.
 
 (* EndpointID.MarshalCbor refuses invalid IDs *)
+Definition enc_eid_body (e : eid) : list N :=
+  match e with
+  | DtnNone => enc_arr 2 ++ enc_uint 1 ++ enc_uint 0
+  | Dtn node demux => enc_arr 2 ++ enc_uint 1 ++ enc_tstr (ssp_bytes node demux)
+  | Ipn n s => enc_arr 2 ++ enc_uint 2 ++ enc_arr 2 ++ enc_uint n ++ enc_uint s
+  end.
 Definition enc_eid (e : eid) : option (list N) :=
-  if eid_valid e then
-    Some (match e with
-          | DtnNone => enc_arr 2 ++ enc_uint 1 ++ enc_uint 0
-          | Dtn node demux => enc_arr 2 ++ enc_uint 1 ++ enc_tstr (ssp_bytes node demux)
-          | Ipn n s => enc_arr 2 ++ enc_uint 2 ++ enc_arr 2 ++ enc_uint n ++ enc_uint s
-          end)
-  else None.
+  if eid_valid e then Some (enc_eid_body e) else None.
 
 (* EndpointID.UnmarshalCbor (no validity check here: ipn 0 decodes) *)
 Definition dec_eid (bs : list N) : res eid :=
